@@ -59,6 +59,13 @@ Proof.
   induction p as [|y p IH]; intro r; cbn; [now destruct r|]. now rewrite byte_eqb_refl, IH.
 Qed.
 
+Lemma has_prefix_nil s : has_prefix s [] = true.
+Proof. now destruct s. Qed.
+
+Lemma has_prefix_slash_cons d : has_prefix (slash :: d) [slash] = true.
+Proof. cbn. now rewrite byte_eqb_refl, has_prefix_nil. Qed.
+Local Hint Resolve has_prefix_slash_cons has_prefix_nil : core.
+
 Lemma skipn_app_len {A} : forall (p r : list A), skipn (length p) (p ++ r) = r.
 Proof. induction p; cbn; auto. Qed.
 
@@ -217,6 +224,19 @@ Proof.
     + apply unescape_escape.
 Qed.
 
+Lemma escaped_path_of_idem d raw :
+  escaped_path_of d (escaped_path_of d raw) = escaped_path_of d raw.
+Proof.
+  unfold escaped_path_of at 2 3.
+  destruct (negb (is_empty raw) && valid_encoded raw &&
+            match unescape raw with Some d0 => str_eqb d0 d | None => false end) eqn:E.
+  - unfold escaped_path_of. now rewrite E.
+  - destruct (str_eqb d (bs "*")) eqn:E2.
+    + apply str_eqb_eq in E2. subst d. reflexivity.
+    + unfold escaped_path_of. rewrite E2, escape_valid, unescape_escape, str_eqb_refl.
+      now destruct (escape d).
+Qed.
+
 Lemma escaped_path_of_no_qmark path raw :
   mem_byte qmark raw = false -> mem_byte qmark (escaped_path_of path raw) = false.
 Proof.
@@ -345,7 +365,7 @@ Proof.
   inversion H; subst u. exists d, raw, f, q. subst p.
   repeat split; auto.
   - unfold raw_path_of. cbn. replace (byte_eqb slash qmark) with false by reflexivity.
-    destruct (cut_q r). cbn [fst]. cbn. now rewrite byte_eqb_refl.
+    destruct (cut_q r). cbn [fst]. cbn. rewrite byte_eqb_refl. now destruct s.
   - apply (proj1 (cut_q_spec (slash :: r))).
 Qed.
 
@@ -393,22 +413,17 @@ Section Forward.
     rewrite Hr in Hu. destruct (unescape_slash_head _ _ Hu) as [d' ->].
     unfold forward_target_gen, rewrite_url. rewrite join_target_query.
     destruct Hcases as [(-> & He) | (-> & He)].
-    - rewrite join_target_slash; auto. cbn [is_empty]. reflexivity.
-      rewrite escaped_path_of_default by discriminate. rewrite He, Hr. reflexivity.
-    - assert (Hep : escaped_path_of (slash :: d') p = escaped_path_of (slash :: d') (escaped_path_of (slash :: d') p)).
-      { unfold escaped_path_of at 2 3.
-        destruct (negb (is_empty p) && valid_encoded p &&
-                  match unescape p with Some d0 => str_eqb d0 (slash :: d') | None => false end) eqn:E.
-        - unfold escaped_path_of. now rewrite E, E.
-        - replace (str_eqb (slash :: d') (bs "*")) with false by reflexivity.
-          unfold escaped_path_of.
-          replace (str_eqb (slash :: d') (bs "*")) with false by reflexivity.
-          rewrite escape_valid, unescape_escape, str_eqb_refl. cbn. reflexivity. }
+    - assert (Hsl1 : has_prefix (escaped_path_of (slash :: d') []) [slash] = true).
+      { rewrite escaped_path_of_default by discriminate. rewrite He, Hr. auto. }
+      rewrite join_target_slash by auto. cbn [is_empty]. reflexivity.
+    - pose proof (escaped_path_of_idem (slash :: d') p) as Hep. symmetry in Hep.
       assert (Hsl2 : has_prefix (escaped_path_of (slash :: d') p) [slash] = true).
       { unfold escaped_path_of.
         destruct (negb (is_empty p) && valid_encoded p &&
-                  match unescape p with Some d0 => str_eqb d0 (slash :: d') | None => false end); auto. }
-      rewrite join_target_slash; auto.
+                  match unescape p with Some d0 => str_eqb d0 (slash :: d') | None => false end); auto.
+        replace (str_eqb (slash :: d') (bs "*")) with false by reflexivity.
+        change (escape (slash :: d')) with (slash :: escape d'). auto. }
+      rewrite join_target_slash by auto.
       replace (is_empty p) with false by (now rewrite Hr).
       unfold request_uri, escaped_path. cbn [u_path u_raw_path u_force_query u_raw_query].
       now rewrite <- Hep.
@@ -467,10 +482,11 @@ Section Forward.
     unfold forward_target, forward_target_gen, rewrite_url. rewrite join_target_query.
     destruct Hcases as [(-> & He) | (-> & He)].
     - (* default encoding: RawPath is empty *)
-      rewrite join_target_slash; auto.
-      2:{ rewrite escaped_path_of_default.
-          - rewrite He. exact Hsl.
-          - intro E. rewrite E in Hd. discriminate. }
+      assert (Hsl1 : has_prefix (escaped_path_of (pre ++ dr) []) [slash] = true).
+      { rewrite escaped_path_of_default.
+        - rewrite He. exact Hsl.
+        - intro E. rewrite E in Hd. discriminate. }
+      rewrite join_target_slash by auto.
       cbn [is_empty]. rewrite Htrim.
       assert (Hcut : (match cut_prefix [] pre with
                       | Some r0 => if is_empty r0 || has_prefix r0 [slash] then r0 else []
@@ -486,7 +502,7 @@ Section Forward.
       assert (Hep : escaped_path_of (pre ++ dr) p = p).
       { apply escaped_path_of_raw; auto. rewrite Hpre at 1. rewrite unescape_nopct_app by auto.
         now rewrite Hur. }
-      rewrite join_target_slash; auto; [|now rewrite Hep].
+      rewrite join_target_slash by (auto; now rewrite Hep).
       replace (is_empty p) with false by (now rewrite Hp').
       rewrite Hep, Htrim.
       assert (Hcut : cut_prefix p pre = Some r).
